@@ -237,7 +237,7 @@ func (tv *ComplexListView) Pop() error {
 		return fmt.Errorf("list length is 0 and no item can be popped")
 	}
 	// Popping is done by setting the node at the index list_length - 1. And expanding where necessary as it is being set.
-	lastGindex, err := ToGindex64(ll, tv.depth)
+	lastGindex, err := ToGindex64(ll-1, tv.depth)
 	if err != nil {
 		return err
 	}
